@@ -21,6 +21,9 @@ pub use background::{BackgroundQueue, BackgroundQueueBuilder, BackgroundQueueJoi
 #[cfg(all(metrique_verif, feature = "background-queue"))]
 #[doc(hidden)]
 pub use background::__verif_waker;
+#[cfg(all(metrique_verif, feature = "background-queue"))]
+#[doc(hidden)]
+pub use background::__verif_writer;
 pub use immediate_flush::{
     AnyFlushImmediately, FlushImmediately, FlushImmediatelyBuilder,
     describe_immediate_flush_metrics,
